@@ -583,11 +583,32 @@ func ruleMark(r *core.Reporter) {
 	mc := p.Func(rel(pkgModels), "markCompleted")
 	acc := p.Func(rel(pkgModels), "allChildrenCompleted")
 	cac := p.Func(rel(pkgModels), "(*Item).CompleteAndCheck")
-	if mc == nil || acc == nil || cac == nil {
+	if mc == nil || cac == nil {
 		r.Undecided("markCompleted", "", "anchors not found (markCompleted=%v allChildrenCompleted=%v CompleteAndCheck=%v)", mc != nil, acc != nil, cac != nil)
 		return
 	}
-	r.Analysed(mc, acc, cac)
+	// allChildrenCompleted may have been folded into markCompleted by hand: the scan of the children is then found
+	// in markCompleted itself (inlineScan)
+	inlineScan := acc == nil
+	r.Analysed(mc, cac)
+	if acc != nil {
+		r.Analysed(acc)
+	}
+	// HasWork tests on a child inside markCompleted (inline form)
+	var childWork []ir.IfInfo
+	if inlineScan {
+		for _, ii := range ir.Ifs(mc) {
+			if c := ir.BoolCallAtom(ii.Atom, "(*"+pkgModels+".Item).HasWork"); c != nil {
+				if pa := ir.Path(ir.Recv(c.Common())); strings.Contains(pa, "GetChildren()") || strings.Contains(pa, ".children") {
+					childWork = append(childWork, ii)
+				}
+			}
+		}
+		if len(childWork) == 0 {
+			r.Undecided("markCompleted", fnPos(p, mc), "neither allChildrenCompleted nor a HasWork scan of the children in markCompleted was found")
+			return
+		}
+	}
 	// stores to status in markCompleted
 	var stores []*ssa.Store
 	allInstrs(mc, func(in ssa.Instruction) {
@@ -665,7 +686,22 @@ func ruleMark(r *core.Reporter) {
 		} else {
 			r.Violated("markCompleted/status-guard"+sfx, p.InstrPos(st), "the ItemCompleted store is reachable for a node whose status is not GotChildren/GotRedirected (guards found: %d)", len(statusEdges))
 		}
-		if len(childEdges) >= 1 && !without(childEdges) {
+		if inlineScan {
+			// from "this child still has work" the completion must be unreachable (flags are threaded by Reach),
+			// and the scan leaves early only on that edge
+			okScan := true
+			for _, hw := range childWork {
+				start := ir.Pt{B: hw.If.Block().Succs[hw.EdgeWhen(true)], I: 0}
+				if ir.Reach([]ir.Pt{start}, ir.Opts{Stop: func(in ssa.Instruction) bool { return in == ssa.Instruction(hw.If) }}).Reached[st] {
+					okScan = false
+				}
+			}
+			if okScan && ir.Reach([]ir.Pt{ir.Entry(mc)}, ir.Opts{}).Reached[st] {
+				r.Held("markCompleted/children-guard"+sfx, len(childWork), "completion unreachable once a child with work was seen (scan folded into markCompleted)")
+			} else {
+				r.Violated("markCompleted/children-guard"+sfx, p.InstrPos(st), "the ItemCompleted store is reachable although a child still has work")
+			}
+		} else if len(childEdges) >= 1 && !without(childEdges) {
 			r.Held("markCompleted/children-guard"+sfx, len(childEdges), "completion only when there is no child or allChildrenCompleted()")
 		} else {
 			r.Violated("markCompleted/children-guard"+sfx, p.InstrPos(st), "the ItemCompleted store is reachable although children may still have work (guards found: %d)", len(childEdges))
@@ -696,6 +732,17 @@ func ruleMark(r *core.Reporter) {
 				}
 				if ir.BoolCallAtom(a, pkgModels+".allChildrenCompleted") != nil {
 					okAtom = true
+				}
+				if inlineScan {
+					// the folded scan: HasWork on a child, the child's nil test, and the flag it computes
+					if c := ir.BoolCallAtom(a, "(*"+pkgModels+".Item).HasWork"); c != nil {
+						okAtom = true
+					}
+					if ph, isPhi := a.V.(*ssa.Phi); isPhi {
+						if b, isB := ph.Type().Underlying().(*types.Basic); isB && b.Kind() == types.Bool {
+							okAtom = true
+						}
+					}
 				}
 				if !okAtom {
 					extra = describeAtom(a)
@@ -739,7 +786,30 @@ func ruleMark(r *core.Reporter) {
 		r.Violated("markCompleted/both-parent-kinds", fnPos(p, mc), "a parent kind (GotChildren=%v, GotRedirected=%v) is never completed", statusCovered[states["ItemGotChildren"]], statusCovered[states["ItemGotRedirected"]])
 	}
 	// allChildrenCompleted: `true` is returned only if no child HasWork
-	{
+	if inlineScan {
+		// every child is scanned unless one with work was found
+		okCover := true
+		for _, hw := range childWork {
+			l, okl := loopAround(mc, hw.If)
+			if !okl {
+				okCover = false
+				continue
+			}
+			body := ir.Pt{B: l.If.Block().Succs[l.EdgeWhen(true)], I: 0}
+			exit := l.If.Block().Succs[l.EdgeWhen(false)]
+			res := ir.Reach([]ir.Pt{body}, ir.Opts{Stop: func(in ssa.Instruction) bool { return in == ssa.Instruction(l.If) }, EdgeOK: func(b *ssa.BasicBlock, sidx int) bool {
+				return !(b == hw.If.Block() && sidx == hw.EdgeWhen(true))
+			}})
+			if len(exit.Instrs) > 0 && res.Reached[exit.Instrs[0]] && exit != hw.If.Block() {
+				okCover = false
+			}
+		}
+		if okCover {
+			r.Held("allChildrenCompleted", len(childWork), "folded into markCompleted: the scan stops early only at a child with work")
+		} else {
+			r.Violated("allChildrenCompleted", fnPos(p, mc), "the scan of the children can stop early without having found a child with work")
+		}
+	} else {
 		okAll := true
 		detail := ""
 		var hwIf *ir.IfInfo
